@@ -23,6 +23,7 @@ OBLIGATIONS = [
     "NanoVerif.C10.glyphName_injective",
     "NanoVerif.C10.cpName_collides_below_space",
     "NanoVerif.parseHex_toHex",
+    "NanoVerif.TrProofs.pop_flag_eq",
 ]
 DESIGN_REF = "DESIGN.md §5 C10"
 LEVEL_TEXT = ("Proof for the CSV, file-name and glyph-name parts; partial for TOML/JSON. Proved in Lean for ALL inputs: (1) csv_roundtrip — for every "
